@@ -152,11 +152,18 @@ impl Ls {
         let hard_links = metadata.nlink();
         let user = {
             let uid = metadata.uid();
-            User::from_uid(Uid::from_raw(uid)).unwrap().unwrap().name
+            // an id without a passwd entry is shown as a number
+            User::from_uid(Uid::from_raw(uid))
+                .ok()
+                .flatten()
+                .map_or_else(|| uid.to_string(), |user| user.name)
         };
         let group = {
             let gid = metadata.gid();
-            Group::from_gid(Gid::from_raw(gid)).unwrap().unwrap().name
+            Group::from_gid(Gid::from_raw(gid))
+                .ok()
+                .flatten()
+                .map_or_else(|| gid.to_string(), |group| group.name)
         };
         let size = metadata.size();
         let last_modified = {
